@@ -3,6 +3,11 @@ CONSTANTS
   Ids = {0, 1, 2}
   Channels = {"org", "user"}
   MaxHops = 64
+  InProc = TRUE
+  WireHops = FALSE
+  HTTPRefused = {}
+  GRPCRefused = {}
+  HTTPTrim <- NoTrim
 INIT TInit
 NEXT TNext
 INVARIANTS StartIsSpecStart TypeOK Unchanged NeverDefaulted SingleValueWritten RefusalHasReason Consumed
